@@ -33,6 +33,9 @@ type nWorker struct {
 	left   int
 	mid    bool // released, no event yet
 	res    []string
+	// compOnly: only the scheduling points of the composites stop this caller (`pts=comp`: the leaves are atomic
+	// objects again, a release runs a whole section of a composite)
+	compOnly bool
 }
 
 var (
@@ -81,6 +84,9 @@ func installNHook() {
 				if w == nil {
 					return // a worker of mode=cbconc: the wrapped schedule is one atomic object there
 				}
+				if w.compOnly && !strings.HasPrefix(point, "composite") {
+					return
+				}
 				w.parked <- "K"
 				<-w.resume
 				return
@@ -103,7 +109,7 @@ func runNConc(m map[string]string) string {
 	ws := make([]*nWorker, len(progs))
 	var begun, done atomic.Int64
 	for i, p := range progs {
-		w := &nWorker{resume: make(chan struct{}), parked: make(chan string), left: len(p)}
+		w := &nWorker{resume: make(chan struct{}), parked: make(chan string), left: len(p), compOnly: m["pts"] == "comp"}
 		ws[i] = w
 		prog := p
 		ready := make(chan struct{})
